@@ -87,8 +87,22 @@ class C17(Plugin):
         if early < len(recs):
             paths = paths[:len(paths) // 2] if len(paths) % 2 == 0 and paths[:len(paths) // 2] == paths[len(paths) // 2:] else paths
         c = curies.Converter(qprops.mk_records(recs[:early]), **qprops.flags(delimiter=d))
-        fl = get_flask_app(c).test_client()
-        fa = TestClient(get_fastapi_app(c))
+        class Unbuildable:
+            """an application that could not be created for this converter: every request to it is a server error"""
+            def __init__(self, e):
+                self.e = e
+
+            def get(self, *a, **kw):
+                raise self.e
+
+        try:
+            fl = get_flask_app(c).test_client()
+        except Exception as e:
+            fl = Unbuildable(e)
+        try:
+            fa = TestClient(get_fastapi_app(c))
+        except Exception as e:
+            fa = Unbuildable(e)
         expands, rows, asked = [], [], []
 
         def ask():
